@@ -1800,7 +1800,7 @@ class Rule(metaclass=LogicalType):
                 # since the actual type is hidden, so the value of the "hidden" type
                 # is consider passed the type validation
                 # [this property is not recommended to inherited by developer]
-                return cls.post_validate(value, context)
+                return cls.run_post_validate(value, context)
 
             try:
                 try:
@@ -1868,7 +1868,17 @@ class Rule(metaclass=LogicalType):
         context.raise_error()
         # raise error if collected
         # and leave the error the upper layer to collect
-        return cls.post_validate(value, context)
+        return cls.run_post_validate(value, context)
+
+    @classmethod
+    def run_post_validate(cls, value, context: RuntimeContext):
+        try:
+            return cls.post_validate(value, context)
+        except exc.ParseError:
+            raise
+        except Exception as e:
+            # (like pre_validate: whatever the hook raises for this value, the value does not parse)
+            context.handle_error(exc.ParseError(origin_exc=e), force_raise=True)
 
     @classmethod
     def pre_validate(cls, value, context: RuntimeContext = None):
